@@ -17,7 +17,11 @@
 // calls (N from three un-paused baseline runs): configuration reads, log file,
 // the "already running?" probe (connect), history mkdir/create/write, stale
 // socket unlink, bind, listen, step log files, status writes, handler,
-// socket shutdown, history compaction.
+// socket shutdown, history compaction — and, with `vtrace --with-stat`, the
+// stat-family calls on paths of the installation.  Those modify nothing; they
+// are pause points in stretches where A only inspects the file system, notably
+// between `listen` and the start of the execution graph (the stat of the log
+// directory in Scheduler.setup), where A issues no modifying call at all.
 //
 // Oracle (exactly the property).  The first run counts as ACTIVE from the moment
 // its status socket listens until its last handler has ended.  While A is
@@ -56,11 +60,43 @@ type member struct {
 	K      int    `json:"k"`                // relevant call of A at whose entry its thread is parked (0 with Anchor: taken from the baseline)
 	B      string `json:"b"`                // start | retry
 	Anchor string `json:"anchor,omitempty"` // named call of the baseline (quick tier's later points)
+	// At/Nth (set in replay artefacts): the parked call was the Nth call of class At of its execution.
+	// A replay locates the call by them, so an artefact survives a change of the numbering
+	// (other supervisor options, a tree that issues more or fewer calls); without them K is used as is.
+	At  string `json:"at,omitempty"`
+	Nth int    `json:"nth,omitempty"`
 }
+
+// locate finds the member's call in a trace (or a prefix of one): by name, by (class, occurrence), or K itself.
+func (m member) locate(calls []Call) int {
+	switch {
+	case m.Anchor != "":
+		return resolveAnchor(calls, m.Anchor)
+	case m.At != "":
+		n := 0
+		for _, c := range calls {
+			if c.Class == m.At {
+				if n++; n == m.Nth {
+					return c.K
+				}
+			}
+		}
+		return 0
+	}
+	if m.K <= len(calls) {
+		return m.K
+	}
+	return 0
+}
+
+func (m member) located() bool { return m.Anchor != "" || m.At != "" }
 
 func (m member) String() string {
 	if m.Anchor != "" {
 		return fmt.Sprintf("K=%d(%s)/B=%s", m.K, m.Anchor, m.B)
+	}
+	if m.At != "" {
+		return fmt.Sprintf("K=%d(%s #%d)/B=%s", m.K, m.At, m.Nth, m.B)
 	}
 	return fmt.Sprintf("K=%d/B=%s", m.K, m.B)
 }
@@ -127,6 +163,11 @@ func resolveAnchor(calls []Call, name string) int {
 	}
 	return 0
 }
+
+// startupEnd is the last call of the quick tier's dense range: everything up to the launch of the
+// first step (configuration, probe, history, bind, listen, the stats of the log directory and of
+// the step log before the graph is started, creation of the s1 log file) and one call more.
+func (b *baseline) startupEnd() int { return b.anchor("s1-log-create") + 1 }
 
 // plainRun executes A un-paused under `vtrace --log`, opening gates as steps begin.
 func (hn *harness) plainRun() (*scene, *Trace, error) {
@@ -207,6 +248,8 @@ func milestones(calls []Call) []string {
 	listening, unlinked := false, false
 	for _, c := range calls {
 		switch {
+		case strings.HasPrefix(c.Class, "stat("):
+			// inspects only
 		case c.Class == "unlink(sock)":
 			// only the removal that shuts the socket server down; the removal of a stale socket before
 			// bind is part of the start-up, later redundant removals (by the serving goroutine) are unordered
@@ -274,11 +317,11 @@ func (hn *harness) members() []member {
 		}
 		return out
 	}
-	for k := 1; k <= b.anc.listen+3; k++ {
+	for k := 1; k <= b.startupEnd(); k++ {
 		out = append(out, member{K: k, B: "start"})
 	}
 	for _, n := range anchorNames {
-		if b.anchor(n) > b.anc.listen+3 { // (s1-log-create is call listen+2: already there)
+		if b.anchor(n) > b.startupEnd() { // (s1-log-create is part of the start-up range)
 			out = append(out, member{B: "start", Anchor: n})
 		}
 	}
@@ -300,6 +343,7 @@ type observation struct {
 	BExit        int      `json:"b_exit"`
 	Markers      []string `json:"markers"`
 	Records      []string `json:"history_records"`
+	k, nth       int
 }
 
 type finding struct{ sig, detail string }
@@ -310,17 +354,19 @@ func (hn *harness) runMember(mb member, verbose bool) error {
 	var lastWhy string
 	k := mb.K
 	attempts := 3
-	if mb.Anchor != "" {
+	if mb.located() {
 		// a named call: its number is that of this shard's baseline; calls after the start-up are
 		// numbered per execution (log writes of three goroutines interleave), so when this execution's
 		// call K is another one the member is repeated with K moved to where the named call was / will be
-		k = hn.base.anchor(mb.Anchor)
+		if k = mb.locate(hn.base.calls); k == 0 {
+			return fmt.Errorf("member %s: the baseline has no such call", mb)
+		}
 		attempts = 10
 	}
 	for attempt := 0; attempt < attempts; attempt++ {
 		obs, finds, why, adjust, err := hn.tryMember(mb, k, verbose)
 		if err == errBeyond {
-			if mb.Anchor != "" {
+			if mb.located() {
 				k--
 				lastWhy = "the execution ended before call K"
 				continue
@@ -345,7 +391,7 @@ func (hn *harness) runMember(mb member, verbose bool) error {
 		res.Nontrivial(vlib.Hash(obs.Window, obs.PausedAt, obs.Position, obs.B, obs.BOutcome, obs.AOutcome, statusClass(obs.StatusBefore), statusClass(obs.StatusAfter)))
 		res.Sample(obs)
 		for _, f := range finds {
-			res.Violate(f.sig, f.detail, mb)
+			res.Violate(f.sig, f.detail, member{K: obs.k, B: mb.B, Anchor: mb.Anchor, At: obs.PausedAt, Nth: obs.nth})
 		}
 		if verbose {
 			b, _ := json.MarshalIndent(obs, "", "  ")
@@ -386,8 +432,8 @@ func positionOf(ms []marker) string {
 // tryMember runs one member.  why != "": the execution did not reach the intended point (repeat).
 func (hn *harness) tryMember(mb member, k int, verbose bool) (obs *observation, finds []finding, why string, adjust int, err error) {
 	wantClass := ""
-	if mb.Anchor != "" {
-		wantClass = hn.base.calls[hn.base.anchor(mb.Anchor)-1].Class
+	if mb.located() {
+		wantClass = hn.base.calls[mb.locate(hn.base.calls)-1].Class
 	}
 	sc, err := hn.newScene("m")
 	if err != nil {
@@ -428,10 +474,19 @@ func (hn *harness) tryMember(mb member, k int, verbose bool) (obs *observation, 
 	parked := tr.Calls[k-1]
 	if wantClass != "" && parked.Class != wantClass {
 		adjust = 1
-		if at := resolveAnchor(tr.Calls[:k-1], mb.Anchor); at > 0 {
+		if at := mb.locate(tr.Calls[:k-1]); at > 0 {
 			adjust = at - k
 		}
-		return nil, nil, fmt.Sprintf("call %d of this execution is %s, the baseline's %s is %s", k, parked.Class, mb.Anchor, wantClass), adjust, nil
+		return nil, nil, fmt.Sprintf("call %d of this execution is %s, the call wanted (%s) is %s", k, parked.Class, mb, wantClass), adjust, nil
+	}
+	if mb.At != "" {
+		if at := mb.locate(tr.Calls); at != k {
+			adjust = 1
+			if at > 0 {
+				adjust = at - k
+			}
+			return nil, nil, fmt.Sprintf("call %d of this execution is not occurrence %d of %s", k, mb.Nth, mb.At), adjust, nil
+		}
 	}
 	// the strictly sequential start-up must be the baseline's, call by call
 	bs := startupClasses(hn.base.calls)
@@ -454,6 +509,12 @@ func (hn *harness) tryMember(mb member, k int, verbose bool) (obs *observation, 
 	symmetric := window == wPreProbe || window == wProbe
 	obs = &observation{Member: mb.String(), PausedAt: parked.Class, Window: window, Position: position, B: mb.B}
 	obs.Member = fmt.Sprintf("K=%d/B=%s", k, mb.B)
+	obs.k = k
+	for _, c := range tr.Calls {
+		if c.Class == parked.Class {
+			obs.nth++
+		}
+	}
 	if verbose {
 		fmt.Printf("member %s: first run parked at call %d = %s\n", mb, k, sc.short(parked))
 		for _, c := range tr.Calls {
@@ -868,7 +929,7 @@ func main() {
 	if fl.Thorough() {
 		res.Bounds["family"] = fmt.Sprintf("every K = 1..N+2 = 1..%d x {start, retry}", b.n+2)
 	} else {
-		res.Bounds["family"] = fmt.Sprintf("every K of the start-up up to listen+3 (K = 1..%d) plus the named later calls %v, second run = start", b.anc.listen+3, anchorNames)
+		res.Bounds["family"] = fmt.Sprintf("every K from the first call to the creation of the s1 log file + 1 (K = 1..%d; listen is K = %d) plus the named later calls %v, second run = start", b.startupEnd(), b.anc.listen, anchorNames)
 	}
 	for i, mb := range mbs {
 		if !fl.Mine(i) {
